@@ -20,6 +20,9 @@ type nestInst struct {
 	flag bool
 	tok  int
 	ro   bool // read-only: while set, nothing below is allowed to change
+	// vars: alias variables the caller owns and has handed out pointers to; the caller fills them in or
+	// empties them whenever it likes, without a word to the stack that holds the pointer
+	vars []*StackAlias
 }
 
 var nestClasses = []string{"prim", "nil", "stack", "alias", "ptr-alias", "cond", "cond(stack)", "aliasS", "ptr-stack", "nil-ptr-alias", "nil-ptr-stack", "ptr3-alias"}
@@ -49,6 +52,10 @@ func (in *nestInst) mk(class string) (v any, stackLike bool) {
 		p1 := &a
 		p2 := &p1
 		return &p2, true
+	case "ptr-alias-var": // a pointer to an alias variable that is still unset: no Stack (yet)
+		a := new(StackAlias)
+		in.vars = append(in.vars, a)
+		return a, false
 	case "nil-ptr-alias": // a pointer that points at no Stack is not a Stack
 		return (*StackAlias)(nil), false
 	case "nil-ptr-stack":
@@ -74,9 +81,13 @@ func isStackLike(v any) bool {
 		rv = rv.Elem()
 	}
 	if rv.Kind() != reflect.Ptr && rv.CanInterface() && rv.Interface() != v {
-		switch rv.Interface().(type) {
-		case stackage.Stack, StackAlias, StackAliasS:
-			return true
+		switch tv := rv.Interface().(type) {
+		case stackage.Stack:
+			return !tv.IsZero()
+		case StackAlias:
+			return !stackage.Stack(tv).IsZero() // a pointer to an unset alias leads to no Stack
+		case StackAliasS:
+			return !stackage.Stack(tv).IsZero()
 		}
 	}
 	switch v.(type) {
@@ -101,6 +112,11 @@ func c13Ops(maxBatch int, classes []string, cond bool) []nestOp {
 		// set, the option and the content stay as they are)
 		nestOp{"SetParen(true)", 0, nil, "other:paren-on"}, nestOp{"SetParen(false)", 0, nil, "other:paren-off"}, nestOp{"SetNoPadding()", 0, nil, "other:nopad-toggle"},
 		nestOp{"SetReadOnly(true)", 0, nil, "ro-on"}, nestOp{"SetReadOnly(false)", 0, nil, "ro-off"})
+	for _, cl := range classes {
+		if cl == "ptr-alias-var" {
+			ops = append(ops, nestOp{"caller fills its alias variables", 0, nil, "vars-fill"}, nestOp{"caller empties its alias variables", 0, nil, "vars-empty"})
+		}
+	}
 	if cond {
 		for _, cl := range classes {
 			ops = append(ops, nestOp{"SetExpression(" + cl + ")", 0, []string{cl}, "setexpr"})
@@ -129,6 +145,7 @@ func c13Machine(c *Ctx, kind string, maxL, maxBatch int, classes []string, cond 
 	name := fmt.Sprintf("C13 %s maxlen=%d batch<=%d", kind, maxL, maxBatch)
 	decorated := strings.HasSuffix(kind, "+decorated")
 	kind = strings.TrimSuffix(kind, "+decorated")
+	kind = strings.Replace(kind, "+vars", "", 1)
 	capk := 0
 	if strings.HasSuffix(kind, "+cap2") {
 		kind, capk = strings.TrimSuffix(kind, "+cap2"), 2
@@ -170,6 +187,14 @@ func c13Machine(c *Ctx, kind string, maxL, maxBatch int, classes []string, cond 
 			var out []string
 			bad := func(k, f string, a ...any) { out = append(out, k+"\x00"+fmt.Sprintf(f, a...)) }
 			switch o.kind {
+			case "vars-fill":
+				for i, a := range in.vars {
+					*a = StackAlias(stackage.And().Push(fmt.Sprintf("t%d", 900+i)))
+				}
+			case "vars-empty":
+				for _, a := range in.vars {
+					*a = StackAlias{}
+				}
 			case "other:paren-on", "other:paren-off", "other:nopad-toggle", "ro-on", "ro-off":
 				if in.isC {
 					switch o.kind {
@@ -268,7 +293,13 @@ func c13Machine(c *Ctx, kind string, maxL, maxBatch int, classes []string, cond 
 						in.m = append(in.m, v)
 					}
 				}
+				offered := append([]any{}, vals...)
 				in.s.Push(vals...)
+				if check && !sameList(vals, offered) {
+					// the batch is the caller's own slice (Push(batch...)): offering it again, e.g. after switching
+					// the option off, must offer the same values
+					bad("offered-batch-modified", "Push(batch...) rewrote the caller's slice: offered %s, the slice now reads %s (no-nesting=%v)", showTypes(offered), showTypes(vals), in.flag)
+				}
 				if check && anyStack {
 					c.Nontrivial(name + "|" + o.name + "|" + fmt.Sprint(len(in.m)))
 				}
@@ -372,6 +403,13 @@ func c13Configs(c *Ctx) []c13Cfg {
 	}
 	out = append(out, c13Cfg{"OR+decorated", 2, 2, nestClasses, false})
 	out = append(out, c13Cfg{"LIST+cap2", 2, 3, []string{"prim", "stack", "ptr-alias", "cond"}, false}, c13Cfg{"NOT+cap2", 2, 3, []string{"prim", "alias", "nil"}, false})
+	// pointers to alias variables the caller fills in and empties behind the stack's back
+	varClasses := []string{"prim", "ptr-alias-var", "stack", "nil"}
+	if c.Quick() {
+		out = append(out, c13Cfg{"AND+vars", 2, 2, varClasses, false}, c13Cfg{"CONDITION+vars", 1, 1, varClasses, true})
+	} else {
+		out = append(out, c13Cfg{"AND+vars", 3, 2, varClasses, false}, c13Cfg{"LIST+vars", 3, 3, varClasses, false}, c13Cfg{"OR+vars+cap2", 2, 2, varClasses, false}, c13Cfg{"CONDITION+vars", 1, 1, varClasses, true})
+	}
 	out = append(out, c13Cfg{"CONDITION", 1, 1, nestClasses, true}, c13Cfg{"CONDITION-piecemeal", 1, 1, nestClasses, true})
 	return out
 }
